@@ -50,13 +50,14 @@ let item () =
   | "I" ->
     let api = (match next () with "RC" -> ARunCode | "RN" -> ARun | "CL" -> ACall | t -> failwith ("bad api " ^ t)) in
     let ctx = nexti () in
+    let imp = (nexti () = 1) in
     let ng = nexti () in
     let gates = rep ng (fun () -> let n = nexti () in rep n ev) in
     let e = expr () in
-    IInv { iapi = api; ibody = e; ictx = nat_of_int ctx; igates = gates }
+    IInv { iapi = api; ibody = e; ictx = nat_of_int ctx; igates = gates; iimport = imp }
   | t -> failwith ("bad item " ^ t)
 
-let ecls = function ERuntime -> "runtime" | EHost -> "host" | EStack -> "bounds" | EFrames -> "bounds" | ECtx -> "ctx"
+let ecls = function ERuntime -> "runtime" | EHost -> "host" | EStack -> "bounds" | EFrames -> "bounds" | ECtx -> "ctx" | EImport -> "import"
 let outcome = function
   | OVal (Some z) -> Printf.sprintf "V %Ld" (i64_of_z z)
   | OVal None -> "VNIL"
@@ -69,7 +70,7 @@ let outcome = function
 let () =
   let cfg = match (if Array.length Sys.argv > 1 then Sys.argv.(1) else "current") with
     | "current" -> cfg_current | "nodrop" -> cfg_nodrop | "nopush" -> cfg_nopush
-    | "pinned" -> cfg_pinned | "noclone" -> cfg_noclone | t -> failwith ("bad config " ^ t) in
+    | "pinned" -> cfg_pinned | "noclone" -> cfg_noclone | "norunip" -> cfg_norunip | "nomods" -> cfg_nomods | t -> failwith ("bad config " ^ t) in
   try while true do
     let line = input_line stdin in
     toks := Array.of_list (List.filter (fun s -> s <> "") (String.split_on_char ' ' line));
